@@ -1,5 +1,6 @@
 (* C05 - Rejected CTAP2 requests report exactly the status code their fault calls for. *)
-From Ctap Require Import Base Schema Wire Utf8 Typed WellTyped Procs Inst Tables ProcTables Finite CborItem WireP SkipP TypedP EntriesP FramingP C11P SerP TotalP RoundTripP PrefixP FaultP ObRequestSide ObOpTables FnShapes Shapes ObShapeRequest Deps ObDeps ObShapeStrings ObShapeFilters ObShapeTablesOp.
+From Ctap Require Import Base Schema Wire Utf8 Typed WellTyped Procs Inst Tables ProcTables Finite CborItem WireP SkipP TypedP EntriesP FramingP C11P SerP TotalP RoundTripP PrefixP FaultP DeepP ObRequestSide ObRequestTotal ObOpTables FnShapes Shapes ObShapeRequest Deps ObDeps ObShapeStrings ObShapeFilters ObShapeTablesOp.
+From Coq Require Import Relations.
 Local Open Scope string_scope.
 Local Open Scope Z_scope.
 
@@ -190,6 +191,76 @@ Theorem c05_member_error_propagates : forall e k name s d fs entries fd n i' ce,
   = Err ce.
 Proof. exact dec_indexed_member_error. Qed.
 
+(* FAULT AT ANY DEPTH.  [steps e s s'] (coq/Proofs/DeepP.v) is the reflexive-transitive closure of the "calls" relation of
+   the typed decoder: through options, lists, indexed and text-keyed maps and the two filtering lists, after any run of
+   well-formed members / elements before the call (unknown text members skipped).  Whatever a decoder call at ANY nesting
+   depth reports is what the request decoder reports: errors are never swallowed or re-labelled on the way up ... *)
+Theorem c05_error_at_any_depth : forall e b body v t k' t' i' ce, 0 <= b < 256 -> spec_route b = RtDecode v t ->
+  steps e (SDec type_fuel t body) (SDec k' t' i') -> dec e k' t' i' = Err ce ->
+  request_deserialize spec_tables e (b :: body) = RErr (match ce with SerdeMissingField => 0x14 | _ => 0x12 end).
+Proof.
+  intros e b body v t k' t' i' ce Hb R St He. rewrite <- (route_of_spec b Hb) in R.
+  rewrite (request_decode_step spec_tables e b body v t R). rewrite decode_dec.
+  rewrite (error_at_depth e _ _ _ _ _ _ ce St He). rewrite spec_status_of_cerr. reflexivity.
+Qed.
+
+(* ... hence a value of the wrong CBOR data type at ANY depth of ANY request - inside nested maps, list elements, optional
+   members, after any well-formed siblings - makes the request InvalidCbor (0x12), in every feature set, for the
+   specification's declarations and for the declarations regenerated from /repo *)
+Lemma wrong_type_deep : forall (envs : feats -> env),
+  forallb (fun f => forallb (route_ok (envs f)) bytes256) all_feats = true ->
+  forall f b body v t k' t' x r, In f all_feats -> 0 <= b < 256 -> spec_route b = RtDecode v t ->
+  steps (envs f) (SDec type_fuel t body) (SDec k' t' (x :: r)) ->
+  ~ In (x / 32) (first_majors (envs f) k' t') -> 0 <= x < 256 ->
+  request_deserialize spec_tables (envs f) (b :: body) = RErr 0x12.
+Proof.
+  intros envs Hroutes f b body v t k' t' x r Hf Hb R St Hmaj Hx.
+  pose proof (wrong_type_rejected (envs f) k' t' x r Hmaj Hx) as W.
+  pose proof (routes_clean envs Hroutes f b v t body Hf Hb R) as C.
+  destruct (wrong_type_at_depth_decode (envs f) t body k' t' x r St W C) as [ce [E N]].
+  rewrite <- (route_of_spec b Hb) in R.
+  rewrite (request_decode_step spec_tables (envs f) b body v t R).
+  rewrite E. rewrite spec_status_of_cerr.
+  destruct ce; try reflexivity. contradiction N; reflexivity.
+Qed.
+
+Theorem c05_wrong_type_at_any_depth : forall f b body v t k' t' x r, In f all_feats -> 0 <= b < 256 ->
+  spec_route b = RtDecode v t ->
+  steps (spec_env f) (SDec type_fuel t body) (SDec k' t' (x :: r)) ->
+  ~ In (x / 32) (first_majors (spec_env f) k' t') -> 0 <= x < 256 ->
+  request_deserialize spec_tables (spec_env f) (b :: body) = RErr 0x12.
+Proof. apply wrong_type_deep. vm_compute. reflexivity. Qed.
+
+Theorem c05_generated_wrong_type_at_any_depth : forall f b body v t k' t' x r, In f all_feats -> 0 <= b < 256 ->
+  spec_route b = RtDecode v t ->
+  steps (gen_env f) (SDec type_fuel t body) (SDec k' t' (x :: r)) ->
+  ~ In (x / 32) (first_majors (gen_env f) k' t') -> 0 <= x < 256 ->
+  request_deserialize spec_tables (gen_env f) (b :: body) = RErr 0x12.
+Proof. apply wrong_type_deep. exact generated_request_total. Qed.
+
+(* non-vacuity: a MakeCredential request whose user entity carries the integer 5 where the byte string `id` is expected -
+   two maps deep, after two well-formed parameters; the derivation of [steps] is constructed, not computed *)
+Definition c05_ex_deep_body : bytes :=
+  ([0xA4; 0x01; 0x58; 0x20] ++ repeat 0x11 32 ++ [0x02; 0xA1; 0x62; 0x69; 0x64; 0x61; 0x78]
+   ++ [0x03; 0xA1; 0x62; 0x69; 0x64; 0x05; 0x04; 0x80])%list.
+Example c05_ex_deep :
+  exists k' r, steps (spec_env []) (SDec type_fuel (TNamed "ctap2::make_credential::Request") c05_ex_deep_body)
+                     (SDec k' (TBytesCap 64) (5 :: r))
+  /\ ~ In (5 / 32) (first_majors (spec_env []) k' (TBytesCap 64))
+  /\ request_deserialize spec_tables (spec_env []) (1 :: c05_ex_deep_body) = RErr 0x12.
+Proof.
+  eexists. eexists. split; [|split].
+  - eapply Relation_Operators.rt1n_trans; [eapply St_idx; vm_compute; reflexivity|].
+    eapply Relation_Operators.rt1n_trans; [eapply St_idx_next; [reflexivity|vm_compute; reflexivity|vm_compute; reflexivity|reflexivity|vm_compute; reflexivity]|].
+    eapply Relation_Operators.rt1n_trans; [eapply St_idx_next; [reflexivity|vm_compute; reflexivity|vm_compute; reflexivity|reflexivity|vm_compute; reflexivity]|].
+    eapply Relation_Operators.rt1n_trans; [eapply St_idx_member; [reflexivity|vm_compute; reflexivity|vm_compute; reflexivity|reflexivity]|].
+    eapply Relation_Operators.rt1n_trans; [eapply St_txt; vm_compute; reflexivity|].
+    eapply Relation_Operators.rt1n_trans; [eapply St_txt_member; [reflexivity|vm_compute; reflexivity|reflexivity|reflexivity]|].
+    cbn. apply Relation_Operators.rt1n_refl.
+  - vm_compute. intros [H|[]]. discriminate.
+  - vm_compute. reflexivity.
+Qed.
+
 Definition c05_ex_client_pin : val :=
   VRec [("pin_protocol", VZ 1); ("sub_command", VEnum "GetPinToken");
         ("key_agreement", VSome (VRec [("x", VBytes (repeat 7 32)); ("y", VBytes (repeat 9 32))]));
@@ -275,3 +346,6 @@ Eval vm_compute in "ASSUMPTIONS c05_modelled_dependencies_pinned". Print Assumpt
 Eval vm_compute in "ASSUMPTIONS c05_modelled_functions_unchanged_strings". Print Assumptions c05_modelled_functions_unchanged_strings.
 Eval vm_compute in "ASSUMPTIONS c05_modelled_functions_unchanged_filters". Print Assumptions c05_modelled_functions_unchanged_filters.
 Eval vm_compute in "ASSUMPTIONS c05_modelled_functions_unchanged_tables_op". Print Assumptions c05_modelled_functions_unchanged_tables_op.
+Eval vm_compute in "ASSUMPTIONS c05_error_at_any_depth". Print Assumptions c05_error_at_any_depth.
+Eval vm_compute in "ASSUMPTIONS c05_wrong_type_at_any_depth". Print Assumptions c05_wrong_type_at_any_depth.
+Eval vm_compute in "ASSUMPTIONS c05_generated_wrong_type_at_any_depth". Print Assumptions c05_generated_wrong_type_at_any_depth.
